@@ -123,7 +123,15 @@ def generate(run, tier):
     return cases
 
 
+_STATE = {"skeleton_broken": False}
+
+
 def _fns(case):
+    # When today's skeleton already fails the discipline (or could not be extracted) that broken
+    # obligation is reported once by regenerate(); the audit cases are then judged by the Spec oracle
+    # alone instead of repeating the same disagreement for every case.
+    if _STATE["skeleton_broken"]:
+        return []
     names = ENTRY_FNS[case["entry"]] + FLAVOUR_FNS[case["flavour"]]
     return sorted({FN[n] for n in names})
 
@@ -236,6 +244,7 @@ def regenerate(run):
         if fails:
             errs.append("ownership discipline D violated by today's C source on %d path(s), first: %s"
                         % (len(fails), fails[0]))
+    _STATE["skeleton_broken"] = bool(errs)
     return errs
 
 
@@ -310,7 +319,7 @@ def extra(run, impl, known):
     def one(job):
         label, im, driver, payload, mode, env = job
         try:
-            return job, im.run(driver, payload, mode, env=env, timeout=(secs * 3 + 120) if "stress" in driver else 240)
+            return job, im.run(driver, payload, mode, env=env, timeout=(secs * 3 + 120) if "stress" in driver else 120)
         except Exception as e:   # noqa (timeout)
             return job, ("crash", {"returncode": -999, "stderr": repr(e), "stdout": ""})
 
